@@ -7,12 +7,14 @@ From CG3gen Require Import OverlapGen.
 
 Inductive raw :=
 | RawUser (seqid biotype name : str) (strand attrs : option str) (on : option bool) (spans : list (Z * Z))
-| RawGff (seqid biotype name : str) (strand attrs : option str) (lines : list (Z * Z)).
+| RawGff (seqid biotype name : str) (strand attrs : option str) (lines : list (Z * Z))
+| RawGb (seqid biotype name : str) (x : loc).
 
 Definition mk_row (r : raw) : row :=
   match r with
   | RawUser s b n st a on sp => add_feature s b n st a on sp
   | RawGff s b n st a ls => gff_row s b n st a ls
+  | RawGb s b n x => gb_row s b n x
   end.
 
 Definition gq := query_db gen_partial gen_within gen_start_only gen_stop_only.
@@ -20,18 +22,20 @@ Definition gc := count_db gen_partial gen_within gen_start_only gen_stop_only.
 
 Inductive op :=
 | OAdd (r : raw)
-| OUnion (other : list raw)      (* self.union(other) *)
-| OUpdate (other : list raw)     (* self.update(other) *)
+| OUnion (otables : list Z) (other : list raw)      (* self.union(other), other of the class with tables otables *)
+| OUpdate (otables : list Z) (other : list raw)     (* self.update(other) *)
 | OSubset (q : query)            (* self.subset(...) *)
-| OCopy.                         (* deepcopy / pickle / json / write+reload *)
+| OCopy                          (* deepcopy / pickle / write+reload *)
+| OJson.                         (* to_rich_dict -> json -> from_dict *)
 
 Definition apply_op (tables : list Z) (db : list row) (o : op) : list row :=
   match o with
   | OAdd r => db ++ [mk_row r]
-  | OUnion other => db_union db (map mk_row other)
-  | OUpdate other => db_update db (map mk_row other)
+  | OUnion otables other => db_union_tw tables otables db (map mk_row other)
+  | OUpdate otables other => db_update_tw otables db (map mk_row other)
   | OSubset q => gq tables db q
   | OCopy => db
+  | OJson => from_rich (to_rich tables db)
   end.
 
 Definition feat_val (r : row) : val :=
@@ -61,3 +65,15 @@ Definition run_case (c : list Z * list op * list query) : val :=
 Definition mkq (bt sid nm st at_ : option str) (on : option bool) (qs qe : option Z) (p : bool) : query :=
   {| q_biotype := bt; q_seqid := sid; q_name := nm; q_strand := st; q_attrs := at_;
      q_on_aln := on; q_start := qs; q_stop := qe; q_partial := p |}.
+
+(** count_distinct on the database a history produces *)
+Definition voostr (o : option (option str)) : val := match o with Some v => VL [vostr v] | None => VL [] end.
+Definition cd_val (o : option (list (key * Z))) : val :=
+  match o with
+  | None => VN
+  | Some l => VL (map (fun p => VL [VL [voostr (fst (fst (fst p))); voostr (snd (fst (fst p))); voostr (snd (fst p))]; VZ (snd p)]) l)
+  end.
+Definition run_cd_case (c : list Z * list op * list (cdarg * cdarg * cdarg)) : val :=
+  let '(tables, ops, cds) := c in
+  let db := fold_left (apply_op tables) ops [] in
+  VL (map (fun a => cd_val (count_distinct tables db (fst (fst a)) (snd (fst a)) (snd a))) cds).
